@@ -48,6 +48,17 @@ def objOf (j : Json) : Except String GoVal := do parseGo (← fld j "obj")
 
 def trigList (l : List (String × Bool)) : Json := .arr ((l.filter (·.2)).map (fun x => Json.str x.1)).toArray
 
+mutual
+/-- no unknown value that Terraform can see: as `Spec.noUnknownDeep`, but the content kept under a null object / list / map
+is not looked at (`ToTerraformValue` of a null value ignores `Attrs` / `Elems`) -/
+partial def noUnknownVisible (skip : List String) : TfVal → Bool
+  | .prim _ u _ _ => !u
+  | .list u n es _ => !u && (n || (es.getD []).all (noUnknownVisible skip))
+  | .map u n es _ => !u && (n || (es.getD []).all fun kv => noUnknownVisible [] kv.2)
+  | .obj u n as _ => !u && (n || (as.getD []).all fun kv => skip.contains kv.1 || noUnknownVisible skip kv.2)
+  | _ => false
+end
+
 /-- evaluate the property predicates of `PGT.Spec` (and the triggers of the known findings) on a result
 produced by the real generated code -/
 def checkOp (ctx : Ctx) (orig impl : Json) : Except String Json := do
@@ -110,6 +121,22 @@ def checkOp (ctx : Ctx) (orig impl : Json) : Except String Json := do
       let expected := (Spec.c06ToLevel m.fields atys).map encDiag
       let written := Spec.c06ToCheck m tfIn false (Spec.c06ToLevel m.fields atys) tfOut
       return res [("C06", b (written && expected.all fun d => (diagStrings impl).contains d))] trig
+    | "to-plan" =>
+      -- an arbitrary typed struct copied into a decoded plan object: the statement of `C08_copyTo_step` / `C09_step`
+      let obj ← structArg (← fld orig "obj")
+      let trig := [("F1b", Spec.Trig.f1b m obj)]
+      if panicked impl then return res [("C06", b false), ("C08", b false)] trig
+      let plan ← objArg m (← fld orig "tf")
+      let tfOut ← tfOf impl
+      -- (what the user's hooks leave in custom-type attributes is theirs: skipped in the unknown test, as in `c08Check`)
+      let ok := (arrD impl "diags").isEmpty &&
+        noUnknownVisible (Spec.injectedNames m.fields m.info.injected ++ Spec.customNames m.fields) tfOut &&
+        Spec.c09Follows m obj plan tfOut
+      let pas := match plan with | .obj _ _ pas _ => pas.getD [] | _ => []
+      let as := match tfOut with | .obj _ _ as _ => as.getD [] | _ => []
+      let bad := (m.fields.filter fun f => !Spec.followsField f obj pas as).map (·.info.nameSnake)
+      return Json.mkObj [("checks", Json.mkObj [("C06", b (arrD impl "diags").isEmpty), ("C08", b ok)]), ("triggers", trigList trig),
+        ("notFollowing", .arr (bad.map Json.str).toArray)]
     | "echo" =>
       let steps := arrD impl "steps"
       let plan ← objArg m (← fld orig "tf")
